@@ -232,6 +232,27 @@ Proof.
     + right. destruct (c_fallback c) as [[]|]; try discriminate. auto.
 Qed.
 
+(* a repository one of whose remotes matches one of the exclusion patterns is excluded *)
+Lemma matching_remote_excluded glob patterns remotes u p :
+  In u remotes -> In p patterns -> glob p u = true ->
+  should_exclude glob patterns (Some remotes) = true.
+Proof.
+  intros Hu Hp Hg. unfold should_exclude.
+  destruct patterns as [|p0 ps]; [contradiction|].
+  destruct (existsb (str_eqb star_pattern) (p0 :: ps)); [reflexivity|].
+  destruct remotes as [|u0 us]; [contradiction|].
+  unfold excl_over_remotes, excl_over_patterns, quantb.
+  apply existsb_exists. exists u. split; [exact Hu|].
+  apply existsb_exists. exists p. split; [exact Hp|exact Hg].
+Qed.
+
+Lemma excluded_repo_is_local glob patterns remotes u p c :
+  In u remotes -> In p patterns -> glob p u = true ->
+  c_excluded c = should_exclude glob patterns (Some remotes) -> effective_mode c = MLocal.
+Proof.
+  intros Hu Hp Hg Hc. apply exclude_wins. rewrite Hc. eapply matching_remote_excluded; eauto.
+Qed.
+
 (* ---------- agent kinds ---------- *)
 
 (* toolx: a custom agent-v1 tool; claude *)
